@@ -38,11 +38,11 @@ Local Open Scope list_scope.
 (* 4.  Side conditions on the generated automaton (all by computation)      *)
 (* ====================================================================== *)
 (* the character edges leaving the closure of the start state: what antlr_lex computes once per text *)
-Definition lexer_init : list (list (N * N) * nat) :=
+Definition lexer_init : list (list (N * N) * N) :=
   out_chars AntlrLexer.lexer_edges (clos AntlrLexer.lexer_edges lexer_cfuel [AntlrLexer.lexer_start]).
 
 (* the set of states after two digits, e.g. after "10" *)
-Definition lexer_loop : list nat :=
+Definition lexer_loop : list N :=
   step AntlrLexer.lexer_edges lexer_cfuel
        (out AntlrLexer.lexer_edges (step AntlrLexer.lexer_edges lexer_cfuel lexer_init "1"%char)) "0"%char.
 
@@ -75,7 +75,7 @@ Proof. vm_compute. reflexivity. Qed.
 (* ====================================================================== *)
 Lemma antlr_lex_unfold : forall s,
   antlr_lex s = lex_nfa_fuel AntlrLexer.lexer_edges AntlrLexer.lexer_accept lexer_cfuel (length s) lexer_init s.
-Proof. intros s. unfold antlr_lex, lexer_init. cbv zeta. reflexivity. Qed.
+Proof. intros s. unfold antlr_lex, lexer_init, lexer_init_edges. reflexivity. Qed.
 
 (* one maximal-munch step of the automaton (longest match, first rule wins) = one step of the model lexer *)
 Theorem antlr_lex1_spec : forall l,
